@@ -3,7 +3,9 @@ every recorded history on the Coq model (model.AlphWatcher) and compare step by 
 import json, os
 import core
 
-EXTRACTORS = ["alph_confirm", "alph_poll", "alph_tokeninfo", "alph_reobserve", "alph_process"]
+EXTRACTORS = ["alph_confirm", "alph_poll", "alph_filters", "alph_tokeninfo", "alph_reobserve", "alph_process"]
+EXTRACTORS_C08 = ["alph_confirm", "alph_filters", "alph_tokeninfo", "alph_reobserve", "alph_process"]
+EXTRACTORS_C09 = ["alph_poll", "alph_filters", "alph_tokeninfo", "alph_process"]
 
 HDR = ("From Coq Require Import List ZArith Bool.\n"
        "From WH Require Import lib.Wire gen.Extracted model.AlphWatcher.\n"
@@ -42,13 +44,16 @@ def run_harness(ctx):
     n = os.environ.get("VERIF_W_N")
     env = {"VERIF_W_N": n} if n else None
     rc, out, trace = core.harness_pkg(ctx, "alephium_watcher", "^TestVerifWatcher$", env=env, timeout=1500, race=(ctx.tier == "thorough"))
-    rows = [r for r in core.read_jsonl(trace) if r.get("k") == "hist"]
+    allrows = core.read_jsonl(trace)
+    rows = [r for r in allrows if r.get("k") == "hist"]
     if rc != 0 or not rows:
         ctx.problem("correspondence", "go harness (alephium watcher)", out[-1500:])
         return None
-    hp = [r for r in rows if "harness_panic" in r]
+    hp = [r for r in allrows if "harness_panic" in r]
     if hp:
         ctx.problem("machinery", "harness panic", hp[0]["harness_panic"])
+    # free-running scenarios (the real Watcher.Run): judged by their monitors only
+    ctx.free_runs = [r for r in allrows if r.get("k") == "run" and "harness_panic" not in r]
     return [r for r in rows if "harness_panic" not in r]
 
 
@@ -69,12 +74,19 @@ def monitors(ctx, rows, prop, limit=6):
                 continue
             n += 1
             seen.setdefault(key, []).append((r, msg))
+    for r in getattr(ctx, "free_runs", []):
+        for m in r.get("mon", []):
+            p, key, msg = m.split("|", 2)
+            if p != prop:
+                continue
+            n += 1
+            seen.setdefault(key, []).append((r, msg))
     for key in sorted(seen):
         if len([k for k in seen if k <= key]) > limit:
             break
-        r, msg = min(seen[key], key=lambda x: len(x[0]["steps"]))   # shortest failing history of the class
+        r, msg = min(seen[key], key=lambda x: len(x[0].get("steps", x[0].get("events", []))))   # shortest failing history of the class
         ctx.problem("monitor", "%s (%d histories)" % (msg[:400], len(seen[key])), "observed on the implementation against the simulated node",
-                    concrete=True, replay=replay_of(r, msg), key=key)
+                    concrete=True, replay=(replay_of(r, msg) if r.get("k") == "hist" else dict(r, monitor=msg)), key=key)
     return n, {k: len(v) for k, v in seen.items()}
 
 
@@ -272,3 +284,6 @@ def coverage(ctx, rows):
     ctx.cov["levels"] = dict(Counter(e["conv"]["cl"] for r in rows for e in r["events"] if e["conv"]))
     ctx.cov["node_requests"] = sum(r.get("requests", 0) for r in rows)
     ctx.cov["slowest_history_ms"] = max(r.get("ms", 0) for r in rows)
+    fr = getattr(ctx, "free_runs", [])
+    ctx.cov["free_runs_of_the_real_Run"] = {"scenarios": len(fr), "events": sum(len(r["events"]) for r in fr), "events_that_had_to_be_forwarded": sum(1 for r in fr for e in r["events"] if e["must"]),
+                                            "forwarded": sum(len(r["forwarded"]) for r in fr), "count_requests": sum(r["count_requests"] for r in fr), "page_requests": sum(r["page_requests"] for r in fr)}
